@@ -127,6 +127,9 @@ def candidates(seed, around=None):
     # two enumerations with members of the same name, each using its OWN member in later values
     yield {"enums": ["enum Signal { LOW = 2, MID = LOW + 1 }", "enum class Priority { LOW = 5, MID = LOW + 1, HIGH = MID * 5 }"]}
     yield {"enums": ["enum class Shade { RED = 60, BLUE, DARK = RED + BLUE }", "enum class Tone { RED = 1, BLUE = RED + 1, DARK = RED + BLUE }"]}
+    # `enum struct` is the other spelling of a scoped enumeration: members qualified the same way
+    yield {"enums": ["enum struct Fruit { NONE, APPLE = 3, PEAR }", "enum struct Veg { NONE = 10, LEEK, KALE = NONE + 5 }"]}
+    yield {"enums": ["enum struct Gear { LOW = 1, HIGH = LOW * 4 }", "enum class Beam { LOW = 7, HIGH }", "enum Raw { R0 = 2, R1 }"]}
     yield {"enums": ["enum Color { RED = 010, GREEN, BLUE = RED + 010 }"], "language": "c"}
     import random
     rnd = random.Random(seed)
